@@ -39,6 +39,11 @@ def run(check: Check):
 
 
 
+def wmean_repo_fn(ff, c):
+  from fjsa.rules import wmean
+  return wmean.repo_fn(ff, c)
+
+
 def model_roles(repo, md: FuncInfo):
   """Names playing the roles pad / bos / eos / oov / full vocabulary size inside a language-model builder,
   recovered from how they are *used* (metric keyword arguments, loss mask, embedding size), not from their spelling.
@@ -206,6 +211,27 @@ def _stackoverflow(check: Check, cf: ConstFolder):
        'default_vocab_size + offset + num_oov_buckets', 'models.stackoverflow.full_vocab_size')
   _cmp(check, md, 'stackoverflow default vocab size', dvs, env.get('vocab_size', UNKNOWN),
        'StackoverflowTokenizer default_vocab_size', 'models.stackoverflow vocab_size default')
+  # the default vocabulary really has default_vocab_size words: the size reaches the loader and the line reader unmodified
+  iff = FuncFlow.of(repo, init)
+  dv_calls = [c for _, c in iff.calls() if wmean_repo_fn(iff, c) == f'{DS}.stackoverflow:default_vocab']
+  ok_dv = len(dv_calls) == 1 and len(dv_calls[0].args) == 1 and iff.param_of(dv_calls[0].args[0]) == 'default_vocab_size'
+  check.ob('R-CONST.vocab', init, txt(dv_calls[0])[:60] if dv_calls else 'default_vocab(...)', ok_dv,
+           'the tokenizer loads exactly default_vocab_size words (the model\'s OOV id is default_vocab_size + 3)',
+           node=dv_calls[0] if dv_calls else None)
+  sup = [c for _, c in iff.calls() if isinstance(c.func, ast.Attribute) and c.func.attr == '__init__' and isinstance(c.func.value, ast.Call) and txt(
+      c.func.value.func) == 'super']
+  ok_sup = False
+  if dv_calls and len(sup) == 1 and len(sup[0].args) == 2 and isinstance(sup[0].args[0], ast.Name):
+    ds_ = iff.defs_for(sup[0].args[0])
+    ok_sup = iff.param_of(sup[0].args[1]) == 'num_oov_buckets' and bool(ds_) and all(
+        (d.kind == 'param' and d.name == 'vocab') or d.value is dv_calls[0] for d in ds_)
+  check.ob('R-CONST.vocab', init, txt(sup[0])[:60] if sup else 'super().__init__(vocab, num_oov_buckets)', ok_sup,
+           'vocabulary and number of OOV buckets are handed to the base tokenizer unchanged')
+  dvf = repo.func(f'{DS}.stackoverflow', 'default_vocab')
+  dff = FuncFlow.of(repo, dvf)
+  sl = [c for _, c in dff.calls() if dff.ext(c.func) == 'itertools.islice']
+  ok_sl = len(sl) == 1 and len(sl[0].args) == 2 and dff.param_of(sl[0].args[1]) == dvf.positional_params[0]
+  check.ob('R-CONST.vocab', dvf, txt(sl[0])[:60] if sl else 'islice(f, n)', ok_sl, 'the word list is cut after exactly the requested number of lines')
   # the reserved offset equals the number of reserved ids
   reserved = [cf.class_const(tok, n) for n in ('PAD', 'BOS', 'EOS')]
   if not any(isinstance(v, Unknown) for v in reserved + [offset]):
@@ -435,8 +461,51 @@ def _tasks(check: Check):
              nontrivial=False)
 
 
+def _layout(check: Check):
+  """Language models run the recurrent core time-major: the batch is transposed on the way in and the logits are transposed back
+  (a reshape would keep the memory order and mix rows)."""
+  repo = check.repo
+  n = 0
+  for modname in (MD + '.shakespeare', MD + '.stackoverflow'):
+    md = repo.func(modname, 'create_lstm_model')
+    try:
+      fp = md.nested('forward_pass')
+    except Exception:  # pylint: disable=broad-except
+      continue
+    ff = FuncFlow.of(repo, fp)
+    check.analysed(fp)
+    unroll = [c for _, c in ff.calls() if (ff.ext(c.func) or '').endswith(('static_unroll', 'dynamic_unroll'))]
+    if not unroll:
+      continue
+    n += 1
+    verdict, how = None, ''
+    for _, rv in ff.returns():
+      for v in ff.expand(rv):
+        if isinstance(v, ast.Call) and ff.ext(v.func) in ('jax.numpy.transpose', 'jax.numpy.swapaxes', 'jax.numpy.moveaxis', 'jax.numpy.einsum'):
+          p = ff.ext(v.func).split('.')[-1]
+          if p == 'transpose':
+            ax = next((k.value for k in v.keywords if k.arg == 'axes'), v.args[1] if len(v.args) > 1 else None)
+            verdict = ax is not None and txt(ax).replace(' ', '') in ('(1,0,2)', '[1,0,2]')
+            how = f'transpose axes={txt(ax) if ax is not None else None}'
+          elif p == 'swapaxes':
+            verdict = len(v.args) == 3 and {txt(v.args[1]), txt(v.args[2])} == {'0', '1'}
+            how = 'swapaxes'
+          else:
+            verdict, how = None, p
+        elif isinstance(v, ast.Call) and (ff.ext(v.func) in ('jax.numpy.reshape',) or (isinstance(v.func, ast.Attribute) and v.func.attr == 'reshape')):
+          verdict, how = False, 'reshape'
+    if verdict is None:
+      check.undecided(f'{modname}.forward_pass: output layout conversion not recognised ({how})')
+      continue
+    check.ob('R-ROW.layout', fp, f'[time, batch, vocab] -> [batch, time, vocab] by {how}', verdict,
+             'the logits leave the recurrent core time-major and must be transposed to batch-major; a reshape to the same shape keeps the '
+             'memory order, so every row would be assembled from other rows\' time steps')
+  check.floor('R-ROW.layout', 'recurrent language models', n, 2)
+
+
 def _row_independence(check: Check):
   repo = check.repo
+  _layout(check)
   n_loss = 0
   for name, m in repo.modules.items():
     # the property speaks of the packaged *classification and language* models; toy_regression deliberately
